@@ -1,6 +1,7 @@
 package rules
 
 import (
+	"go/token"
 	"go/types"
 	"sort"
 	"strings"
@@ -544,4 +545,86 @@ func (c *Ctx) outputLookupDominatesAccept() bool {
 		}
 	}
 	return true
+}
+
+// R-TYPEDNIL (C04 "nil pointers"): `p, ok := x.(*T)` succeeds for a typed nil pointer stored in the interface x; the
+// `x == nil` test in front of it does not catch that. Every dereference of such a p - a method call with p as the
+// receiver, a field access, a load - in the data scope needs a non-nil fact on p itself. Only assertions on values of
+// type `any` (data) are obligations; assertions on schema interfaces are R-ASSERT's.
+func (c *Ctx) ruleTypedNil(rule string, fns map[*ssa.Function]bool) {
+	n := 0
+	for _, fn := range c.M.SortedFuncs(fns) {
+		cnt := 0
+		for _, b := range fn.Blocks {
+			for _, in := range b.Instrs {
+				ta, ok := in.(*ssa.TypeAssert)
+				if !ok {
+					continue
+				}
+				if _, isPtr := ta.AssertedType.Underlying().(*types.Pointer); !isPtr {
+					continue
+				}
+				if it, isIface := ta.X.Type().Underlying().(*types.Interface); !isIface || it.NumMethods() != 0 {
+					continue
+				}
+				if c.isSDKType(ta.AssertedType) {
+					// an assertion to a schema type is schema-mode compatibility code: a typed nil schema pointer is not a
+					// value any decoder produces nor a data value of any schema (outside C04's domain)
+					continue
+				}
+				// the pointer value(s)
+				var ptrs []ssa.Value
+				if ta.CommaOk {
+					for _, r := range *ta.Referrers() {
+						if ex, ok := r.(*ssa.Extract); ok && ex.Index == 0 {
+							ptrs = append(ptrs, ex)
+						}
+					}
+				} else {
+					ptrs = append(ptrs, ta)
+				}
+				for _, p := range ptrs {
+					for _, r := range *p.Referrers() {
+						what := ""
+						switch u := r.(type) {
+						case *ssa.Call:
+							if !u.Call.IsInvoke() && len(u.Call.Args) > 0 && u.Call.Args[0] == p && u.Call.Signature().Recv() != nil {
+								what = "method call " + core.StaticCalleeName(&u.Call)
+							}
+						case *ssa.FieldAddr:
+							if u.X == p {
+								what = "field access"
+							}
+						case *ssa.UnOp:
+							if u.X == p && u.Op == token.MUL {
+								what = "load"
+							}
+						}
+						if what == "" {
+							continue
+						}
+						n++
+						cnt++
+						k := key(rule, c.M.Key(fn), sprintf("%s on a pointer asserted from data #%d", what, cnt))
+						ub := r.(ssa.Instruction).Block()
+						nonnil := false
+						for _, cond := range core.CondsAt(ub) {
+							if y, neq, ok := core.NilCmp(cond.V); ok && neq == cond.True && y == p {
+								nonnil = true
+							}
+						}
+						if nonnil {
+							c.R.Ok(rule, k, c.M.InstrPos(r.(ssa.Instruction)), "dereference of a pointer obtained by a type assertion on data", "dominated by a non-nil test of the pointer itself")
+						} else if isRecoverScope(fn) {
+							c.R.Ok(rule, k, c.M.InstrPos(r.(ssa.Instruction)), "dereference of a pointer obtained by a type assertion on data", "the function recovers")
+						} else {
+							c.R.Bad(rule, k, c.M.InstrPos(r.(ssa.Instruction)), what+" on a pointer that may be a typed nil",
+								"a typed nil pointer inside a non-nil interface passes both `x == nil` and the type assertion; the dereference panics instead of the value being rejected")
+						}
+					}
+				}
+			}
+		}
+	}
+	c.R.Note("%s: %d dereferences of pointers asserted from data", rule, n)
 }
